@@ -244,7 +244,11 @@ func cmdCheck(args []string) int {
 				ok, why = nat.confirms(v)
 			}
 			if !ok {
-				problems = append(problems, fmt.Sprintf("ENGINE-ERROR harness=%s counterexample for %s %q did not reproduce natively: %s", rep.Name, v.Kind, v.Label, why))
+				if v.Sched {
+					problems = append(problems, fmt.Sprintf("UNCONFIRMED-SCHEDULE-VIOLATION harness=%s %s %q holds under the free-running native schedule but fails under a schedule the engine found (replay=%s): %s", rep.Name, v.Kind, v.Label, path, why))
+				} else {
+					problems = append(problems, fmt.Sprintf("ENGINE-ERROR harness=%s counterexample for %s %q did not reproduce natively: %s", rep.Name, v.Kind, v.Label, why))
+				}
 				continue
 			}
 			confirmed++
@@ -443,7 +447,9 @@ func runNative(overlay map[string][]byte, pkgs map[string]string, reports []*Har
 	jb, _ := json.Marshal(jobs)
 	jf := filepath.Join(tmp, "jobs.json")
 	os.WriteFile(jf, jb, 0644)
-	env := append(os.Environ(), "GOFLAGS=-mod=mod", "GOPROXY=off", "GOSUMDB=off", "GOTOOLCHAIN=local")
+	gotmp := filepath.Join(tmp, "gotmp")
+	os.MkdirAll(gotmp, 0755)
+	env := append(os.Environ(), "GOFLAGS=-mod=mod", "GOPROXY=off", "GOSUMDB=off", "GOTOOLCHAIN=local", "GOTMPDIR="+gotmp)
 	for d := range harnessByPkg {
 		bin := filepath.Join(tmp, "t_"+sanitize(d)+".test")
 		cmd := exec.Command("go", "test", "-c", "-vet=off", "-overlay", ovf, "-o", bin, "./"+d)
